@@ -113,10 +113,10 @@ CHECKS["C19"] = {
 CHECKS["C10"] = {
     "corpus": True,
     "runs": [R("./vm", {"fn": r"^ZZ_C10_"})],
-    "expect_asserts": [r"C10\.slice-read/int64/addressed-element", r"C10\.slice-slice/b:e:c/shares-storage", r"C10\.slice-write/int64/append-at-len", r"C10\.map-write/unhashable-key-is-error", r"C10\.string-write/in-range", r"C10\.typed-slice/store-converts-as-go", r"C10\.struct/unknown-field-read-is-error"],
+    "expect_asserts": [r"C10\.slice-read/int64/addressed-element", r"C10\.slice-slice/b:e:c/shares-storage", r"C10\.slice-write/int64/append-at-len", r"C10\.map-write/unhashable-key-is-error", r"C10\.string-write/in-range", r"C10\.typed-slice/store-converts-as-go", r"C10\.struct/unknown-field-read-is-error", r"C10\.read-is-a-value/copy-keeps-the-value-read/swap/.*", r"C10\.read-is-a-value/copy-keeps-the-value-read/defer-argument/.*"],
     "bounds": {"slices": "len 0..3, cap len..len+1, symbolic int64 elements", "indices and bounds": "arbitrary int64 / float64 / int32 / bool and non-numeric classes (no bound on the value)",
                "maps": "0..3 entries over a key pool incl. nil and an unhashable key", "strings": "symbolic ASCII, length 0..3", "typed containers": "[]int64 with values of 6 classes; struct{A int64; B string; C []interface{}}",
-               "histories": "single operations (step lemma) plus slice-then-append through two aliased variables"},
+               "histories": "single operations (step lemma) plus slice-then-append through two aliased variables; read-then-overwrite: 14 receiving forms (variable, var, parameter, variadic parameter, list / map literal, defer / go argument, function result, result under a deferred store, return list, swap, rotation, two targets) x 8 containers ([]interface{}, []int64, two map types, struct value, struct pointer, slice of slices, slice of structs), symbolic payloads, from source text"},
     "stubs": [],
     "assumptions": ["anko accepts numeral strings, booleans and fractional floats as indices; for those only 'in range after conversion => that element, else error' is asserted",
                     "reslicing into len < e <= cap is refused by anko (stricter than Go): that band is not compared"],
@@ -136,12 +136,12 @@ CHECKS["C07"] = {
 
 CHECKS["C08"] = {
     "corpus": True,
-    "runs": [R("./vm", {"fn": r"^ZZ_C08_control_(d1|d2_lite|d1_text)$"}, {"fn": r"^ZZ_C08_control_(d1|d2_b2|d1_text|d2_text)$", "wall_timeout": 10000})],
-    "expect_asserts": [r"C08\.probe-trace", r"C08\.error-status", r"C08\.return-value"],
+    "runs": [R("./vm", {"fn": r"^ZZ_C08_(control_(d1|d2_lite|d1_text)|truthiness|forin_slice|forin_map)$"}, {"fn": r"^ZZ_C08_(control_(d1|d2_b2|d1_text|d2_text)|truthiness|forin_slice|forin_map)$", "wall_timeout": 10000})],
+    "expect_asserts": [r"C08\.probe-trace", r"C08\.error-status", r"C08\.return-value", r"C08\.truthiness/branch-taken-iff-truthy/.*", r"C08\.for-in-slice/index-order-and-element/.*", r"C08\.for-in-map/every-entry-once/.*"],
     "bounds": {"quick": "all abstract programs of depth 1 (11 statement kinds x leaf outcomes x condition truth sequences of <= 2 true evaluations x 0..2 for-in elements) and depth-2 programs over 7 kinds with one nested compound (lite); return leaves are `return v`, bare `return` or `return v, w`; switch cases list one or two expressions; the depth-1 programs are also rendered as source text and run through the parser, with the default clause before, between or after the cases",
                "thorough": "depth 2 with <= 2 compound statements over all 11 kinds, as trees and as source text"},
     "stubs": [], "assumptions": ["break/continue are never placed outside a loop (the statement leaves that open)", "enumerated by forking: skeleton, outcomes and truth values are concrete per path"],
-    "outside": ["depth 3", "map iteration order (for-in over slices only)"],
+    "outside": ["depth 3", "maps of more than 3 entries and slices of more than 3 elements in for-in", "truthiness of numeral / boolean-word strings (\"0\", \"false\": the statement only names empty / non-empty strings)"],
 }
 
 CHECKS["C09"] = {
@@ -159,7 +159,7 @@ CHECKS["C20"] = {
     "runs": [R("./vm", {"fn": r"^ZZ_C20_chain1$"}, {"fn": r"^ZZ_C20_chain[12]$", "wall_timeout": 7200})],
     "expect_asserts": [r"C20\.same-result/neg/int64/slice-element", r"C20\.same-error-or-success/deref/\*int64/struct-field", r"C20\.same-error-or-success/close/chan-open/go-call-interface", r"C20\.same-result/add-l/int64/variable"],
     "bounds": {"templates": "51 operation templates (unary/binary operators in both operand positions, index, slice, len, in, call/spread/callee, member, deref, for-in, switch subject/case, conditions, make length, channel send/receive/close, delete, throw, assignment source/target, defer callee, literals, return)",
-               "values": "34 classes of the value universe, symbolic payloads where a class has one", "provenance": "chains of length 1 (quick) / 2 (thorough) over 9 hops: variable, slice element, map entry, script call, Go call returning interface{}, parentheses, ?:, ??, struct field"},
+               "values": "38 classes of the value universe, symbolic payloads where a class has one", "provenance": "chains of length 1 (quick) / 2 (thorough) over 9 hops: variable, slice element, map entry, script call, Go call returning interface{}, parentheses, ?:, ??, struct field"},
     "stubs": [], "assumptions": ["functions, channels and pointers are distinct objects in the two runs: their dynamic type is compared, not their identity", "all NaNs are one value"],
     "outside": ["effects on the environment beyond the result", "assignment targets whose store must re-bind the target (strings, append at len)", "chains of length 3"],
 }
@@ -167,15 +167,17 @@ CHECKS["C20"] = {
 _C01_RUNS = [
     R("./vm", {"fn": r"^ZZ_C01_k_.*_quick$"}, {"fn": r"^ZZ_C01_k_[A-Za-z]*$", "wall_timeout": 14000}),
 ]
+_C01_EXTRA = [R("./vm", {"fn": r"^ZZ_C01_interference$"})]
 
 CHECKS["C01"] = {
     "corpus": True,
     "assert_filter": r"C01\.|C15\.P2\.|no-host-crash",
-    "runs": _C01_RUNS + [R("./parser", {"fn": r"^ZZ_C15_P2_parse_n[12]$"}, {"fn": r"^ZZ_C15_P2_parse_n[123]$"})],
-    "expect_asserts": [r"C01\.step\.no-panic/CallExpr", r"C01\.step\.no-panic/LetsStmt", r"C01\.step\.no-goroutine-crash/CallExpr", r"C15\.P2\.parse-no-panic", r"C01\.step\.bindings-well-formed/.*"],
-    "bounds": {"quick": {"node kinds": "all (derived from go/types), one node with arbitrary children (inductive step)", "varied child": "19 value classes x 2 provenances or a failing child; one further child over 3 benign classes",
+    "runs": _C01_RUNS + _C01_EXTRA + [R("./parser", {"fn": r"^ZZ_C15_P2_parse_n[12]$"}, {"fn": r"^ZZ_C15_P2_parse_n[123]$"})],
+    "expect_asserts": [r"C01\.step\.no-panic/CallExpr", r"C01\.step\.no-panic/LetsStmt", r"C01\.step\.no-goroutine-crash/CallExpr", r"C15\.P2\.parse-no-panic", r"C01\.step\.bindings-well-formed/.*", r"C01\.interference\.no-panic/for-in-map/.*"],
+    "bounds": {"quick": {"node kinds": "all (derived from go/types), one node with arbitrary children (inductive step)", "varied child": "23 value classes (the first 19 of the universe plus map[int64]string, a nil map, a nil []int64, an addressable struct value) x 2 provenances or a failing child; one further child over 3 benign classes; assignment targets: identifier, member / index / slice of a fixed or an arbitrary container, dereference, non-l-value",
+                         "interference": "7 program families (source text) in which a child changes the container its parent works on: for-in over maps of 1..3 entries x 10 mutations x 1|2 loop variables x every key order, slices, channels, assignment targets, operands, conditions",
                          "statement children": "one child over 6 outcomes (normal, break, continue, return, error, throw)", "lists": "0..2 elements", "parse": "sources of <= 2 symbolic ASCII runes through the real ParseSrc"},
-               "thorough": {"varied child": "all 34 value classes x 2 provenances", "parse": "<= 3 runes"}},
+               "thorough": {"varied child": "all 38 value classes x 2 provenances", "parse": "<= 3 runes"}},
     "stubs": ["host Go functions of the universe: identity, variadic, one that panics, one returning (value, error)", "instruction budget 300000 per step: non-terminating loops are cut and counted"],
     "assumptions": ["non-node fields take the values the grammar can produce (operator spellings, identifier names, typed literals with slice/map types, make with any type of the pool)",
                     "closure: the step's result is an error or a valid value and every binding it leaves is valid+interfaceable; that is what the next step assumes of its operands"],
